@@ -655,7 +655,7 @@ func (vf *VerifyFunc) sliceOp(st *State, fr *Frame, x *ssa.Slice) *Val {
 		if vf.nopanic {
 			st.check("nopanic", "slice@"+st.pos(x), "C14", "slice bounds out of range", st.pos(x), "(and (<= 0 "+lo+") (<= "+lo+" "+hi+") (<= "+hi+" "+mx+") (<= "+mx+" (s_cap "+base.Tm+")))")
 		}
-		return &Val{T: x.Type(), S: SSlice, Tm: "(mk_slice (s_base " + base.Tm + ") (+ (s_off " + base.Tm + ") " + lo + ") (- " + hi + " " + lo + ") (- " + mx + " " + lo + "))"}
+		return &Val{T: x.Type(), S: SSlice, Tm: "(mk_slice (s_base " + base.Tm + ") " + addT("(s_off "+base.Tm+")", lo) + " " + subT(hi, lo) + " " + subT(mx, lo) + ")"}
 	case SInt:
 		// pointer to array
 		if pt, ok := x.X.Type().Underlying().(*types.Pointer); ok {
@@ -675,7 +675,7 @@ func (vf *VerifyFunc) sliceOp(st *State, fr *Frame, x *ssa.Slice) *Val {
 				st.assume(eq("(bytes_len "+r.Tm+")", "(- "+hi+" "+lo+")"))
 				return r
 			}
-			return &Val{T: x.Type(), S: SSlice, Tm: "(mk_slice " + base.Tm + " " + lo + " (- " + hi + " " + lo + ") (- " + n + " " + lo + "))"}
+			return &Val{T: x.Type(), S: SSlice, Tm: "(mk_slice " + base.Tm + " " + lo + " " + subT(hi, lo) + " " + subT(n, lo) + ")"}
 		}
 	}
 	st.note("slice op abstracted")
@@ -734,6 +734,33 @@ func (vf *VerifyFunc) selectOp(st *State, fr *Frame, x *ssa.Select) *Val {
 		fs = append(fs, st.freshVal(tt.At(i).Type(), "sel_recv"))
 	}
 	return &Val{T: x.Type(), Fs: fs}
+}
+
+func subT(a, b string) string {
+	if b == "0" {
+		return a
+	}
+	if x, ok := parseNum(a); ok {
+		if y, ok2 := parseNum(b); ok2 {
+			return num(new(bigInt).Sub(x, y))
+		}
+	}
+	return "(- " + a + " " + b + ")"
+}
+
+func addT(a, b string) string {
+	if b == "0" {
+		return a
+	}
+	if a == "0" {
+		return b
+	}
+	if x, ok := parseNum(a); ok {
+		if y, ok2 := parseNum(b); ok2 {
+			return num(new(bigInt).Add(x, y))
+		}
+	}
+	return "(+ " + a + " " + b + ")"
 }
 
 func typeName(t types.Type) string {
